@@ -5,9 +5,12 @@ package mqtt
 // C17 — the registered handler keeps receiving messages on every later connection.
 
 import (
+	"context"
 	"fmt"
 	"strings"
+	"sync"
 	"testing"
+	"time"
 
 	"pgregory.net/rapid"
 )
@@ -245,4 +248,107 @@ func firstLine(s string) string {
 		return s[:i]
 	}
 	return s
+}
+
+// ---------------------------------------------------------------------------
+// a RetryClient driven by hand: the application switches to a new connection while the previous one is still open
+
+type c17SwitchCase struct {
+	QoS        []int `json:"qos"`        // inbound messages, alternating old / new connection after the switch
+	HandleLate bool  `json:"handleLate"` // Handle is called after the first Connect instead of before SetClient
+	Rehandle   bool  `json:"rehandle"`   // Handle is called once more after the switch
+}
+
+func TestVerifC17_ManualSwitch(t *testing.T) {
+	vRun(t, "C17", vOpts{CurFile: true}, func(rt *rapid.T) c17SwitchCase {
+		return c17SwitchCase{QoS: rapid.SliceOfN(rapid.IntRange(0, 2), 2, 6).Draw(rt, "qos"), HandleLate: rapid.Bool().Draw(rt, "handleLate"), Rehandle: rapid.Bool().Draw(rt, "rehandle")}
+	}, func(tb rapid.TB, c c17SwitchCase) {
+		r1, r2 := newBaseRig(), newBaseRig()
+		defer r1.shutdown()
+		defer r2.shutdown()
+		var mu sync.Mutex
+		got := map[string]int{}
+		h := func(n int) Handler {
+			return HandlerFunc(func(m *Message) {
+				if m.Topic == vSyncTopic {
+					return
+				}
+				mu.Lock()
+				got[string(m.Payload)] = n
+				mu.Unlock()
+			})
+		}
+		rc := &RetryClient{}
+		ctx, cancel := context.WithTimeout(context.Background(), 30*time.Second)
+		defer cancel()
+		defer func() { _ = rc.Disconnect(ctx) }() // ends the client's task goroutine
+		if !c.HandleLate {
+			rc.Handle(h(1))
+		}
+		rc.SetClient(ctx, r1.cli)
+		if _, err := rc.Connect(ctx, "verif-switch"); err != nil {
+			tb.Fatalf("harness: Connect 1: %v", err)
+		}
+		if c.HandleLate {
+			rc.Handle(h(1))
+		}
+		send := func(r *baseRig, tag string, q, id int) {
+			pk := refPacket{Type: rtPublish, Topic: "in/t", QoS: q, Payload: []byte(tag)}
+			if q > 0 {
+				pk.ID = id
+			}
+			r.peer.send(pk)
+			if q == 2 {
+				r.peer.send(refPacket{Type: rtPubRel, ID: id})
+			}
+		}
+		send(r1, "before", 1, 7)
+		if !r1.peer.sync(20 * time.Second) {
+			vFailf(tb, r1.log.strings(30), "first connection stopped processing")
+		}
+		// the switch: the old connection stays open
+		rc.SetClient(ctx, r2.cli)
+		if _, err := rc.Connect(ctx, "verif-switch"); err != nil {
+			tb.Fatalf("harness: Connect 2: %v", err)
+		}
+		want := 1
+		if c.Rehandle {
+			rc.Handle(h(2))
+			want = 2
+		}
+		var tags []string
+		for i, q := range c.QoS {
+			tag := fmt.Sprintf("after%d", i)
+			tags = append(tags, tag)
+			if i%2 == 0 {
+				send(r1, tag, q, 100+i) // still arriving on the previous connection
+			} else {
+				send(r2, tag, q, 100+i)
+			}
+		}
+		ok1, ok2 := r1.peer.sync(20*time.Second), r2.peer.sync(20*time.Second)
+		vCount("C17", true, vJSON(c), []string{"manual-switch"}, func() interface{} { return c })
+		if !ok1 || !ok2 {
+			vFailf(tb, map[string]interface{}{"old": r1.log.strings(30), "new": r2.log.strings(30)}, "a connection stopped processing after the switch (old ok=%v, new ok=%v)", ok1, ok2)
+		}
+		mu.Lock()
+		defer mu.Unlock()
+		if got["before"] != 1 {
+			vFailf(tb, nil, "the message before the switch went to handler %d, want 1", got["before"])
+		}
+		for i, tag := range tags {
+			n, okk := got[tag]
+			where := "new"
+			if i%2 == 0 {
+				where = "previous (still open)"
+			}
+			if !okk {
+				vFailf(tb, map[string]interface{}{"old": r1.log.strings(30), "new": r2.log.strings(30)}, "message %q (q%d) arriving on the %s connection after SetClient was acknowledged but reached no handler", tag, c.QoS[i], where)
+			}
+			// on the previous connection the handler in force is the one it had when it was replaced, or the current one
+			if n != want && !(i%2 == 0 && n == 1) {
+				vFailf(tb, nil, "message %q on the %s connection went to handler %d, want %d", tag, where, n, want)
+			}
+		}
+	})
 }
